@@ -1,41 +1,15 @@
 import vf
-FUNCS = ['state_sync_process', 'sync_data_reader', 'sync_parity_writer', 'block_is_enabled', 'failed_compare_by_index', 'block_state_get/set', 'block_has_invalid_parity', 'block_has_file', 'block_has_updated_hash', 'hash_is_unique', 'info_get', 'info_set', 'info_make']
-KN = {'HOLE': 0, 'EMPTY': 1, 'BLK': 2, 'CHG': 3, 'REP': 4, 'DEL': 5}
-def sync_job(prop, shape, lv, faults=False, wfaults=False, reorder=False, extra_defines=(), tag='', kind='obligation', finding_key=None, timeout=1800):
-    U = [vf.Unit('cmdline/sync.c', flags=vf.PATHMAX64)]
-    nd = len(shape)
-    D = ['ND=%d' % nd, 'LEVEL=%d' % lv, 'KINDS=' + ','.join(str(KN[k]) for k in shape)] + (['FAULTS'] if faults else []) + (['WFAULTS'] if wfaults else []) + (['REORDER'] if reorder else []) + list(extra_defines)
-    name = '%s/sync_step/%s/level%d%s%s%s%s' % (prop, '-'.join(shape), lv, '-faults' if faults else '', '-wfaults' if wfaults else '', '-reorder' if reorder else '', tag)
-    return vf.Job(name, ['C06_sync.c', 'stubs/log_stubs.c'], units=U, entry='c06_sync_step', defines=D,
-                  cflags=vf.PATHMAX64, unwind=max(nd, 8) + 9, timeout=timeout, mem_gb=12, funcs=FUNCS, cost=500, native=False, kind=kind, finding_key=finding_key, flags=['--max-field-sensitivity-array-size', '256'],
-                  sample={'stripe shape (block state per disk)': shape, 'parity levels': lv, 'read faults': 'symbolic open/stat/read faults per disk' if faults else 'none', 'parity write faults': 'symbolic per level' if wfaults else 'none',
-                          'symbolic': 'past-hash kinds, content tokens (recorded / encoded by parity / on disk now), per level old or new parity, info word, stop request'})
-def shapes(tier):
-    if tier == 'quick':
-        return [(['CHG', 'BLK'], 1), (['BLK', 'BLK'], 1), (['REP', 'DEL'], 1), (['CHG', 'EMPTY'], 1)]
-    import itertools
-    S = []
-    ks = ['HOLE', 'EMPTY', 'BLK', 'CHG', 'REP', 'DEL']
-    for a, b in itertools.product(ks, ks):
-        if a in ('HOLE', 'EMPTY') and b in ('HOLE', 'EMPTY'):
-            continue
-        S.append(([a, b], 1))
-    for sh in (['CHG', 'BLK'], ['REP', 'DEL'], ['BLK', 'BLK'], ['CHG', 'CHG']):
-        S.append((sh, 2))
-    for sh in (['CHG', 'BLK', 'DEL'], ['BLK', 'REP', 'HOLE']):
-        S.append((sh, 1))
-    return S
 def build(tier, seed):
-    # The stripe-level step (sync_job above, harness/C06_sync.c) does not finish symbolic execution in this sandbox (> 15 min
-    # per shape, see DESIGN.md); it is kept for reference and NOT registered.  What is decided for C06 is the save / flush
-    # protocol of state_sync() and the size arithmetic of the parity files (shared with C14 / C17).
+    # the per-stripe invariant on the whole state_sync_process (props/syncstep.py, harness/C06_sync.c), the save / flush protocol of
+    # state_sync() and the size arithmetic of the parity files (shared with C14 / C17)
     import C14_interlocks, C17
     J = [j for j in C14_interlocks.jobs(tier, seed, prop='C06') if 'refusal' not in j.name]
     for j in C17.build(tier, seed)['jobs']:
         if 'c17_chsize' in j.name or 'negctl' in j.name:
             j.name = j.name.replace('C17/', 'C06/parity_size/'); J.append(j)
+    import syncstep
+    J += syncstep.jobs('C06', tier)
     return dict(jobs=J, bounds={'parity levels': '1-3 (quick)', 'splits': 'see C17'},
-        assumptions=['state_sync_process / state_hash_process / parity_* / state_write are recorders with symbolic answers in the protocol harness',
-                     'the per-stripe invariant (a block becomes synced only after its parity was generated from the data whose hash is recorded) is NOT decided here: the whole-function harness did not finish'],
+        assumptions=['state_sync_process / state_hash_process / parity_* / state_write are recorders with symbolic answers in the protocol harness'] + syncstep.ASSUMPTIONS,
         trusted=['cbmc 6.11.0', 'kissat', 'recorder stubs'],
-        outside=['per-stripe state changes of state_sync_process', 'block map allocation (scan.c / elem.c)', 'scrub, fix, rehash, touch'])
+        outside=['more than one stripe per run, autosave points, more than 3 disks', 'a hash migration pending during sync', 'block map allocation (scan.c / elem.c): no two files share a position, positions increase with the offset', 'fix, rehash, touch (scrub: C15 step)', 'the real bytes: parity = generator(data) is C02, decoding is C03'])
